@@ -22,11 +22,13 @@ def changeable_primitives(ctx, rule):
     def _f(pat):
         return ctx.anchor_one(rule, pat, facts.fns_matching(pat))
     rp = _f(r"^watchexec::changeable::Changeable::<T>::replace$")
-    asg = [(pathx.desc(a["a"]), pathx.desc(a["b"])) for a in thir.find(thir.root(rp), "assign")]
+    with pathx.reading_through(thir.root(rp)):
+        asg = [(pathx.desc(a["a"]), pathx.desc(a["b"])) for a in thir.find(thir.root(rp), "assign")]
     ctx.require(len(asg) == 1 and "RwLock::write(self.0)" in asg[0][0] and asg[0][1] == "new", rule, "changeable-replace-stores", "Changeable::replace stores the new value under the write lock",
                 rp.loc(rp.line), detail=str(asg), fail="Changeable::replace no longer stores the new value (%s): configuration changes are signalled but never visible" % asg)
     gt = _f(r"^watchexec::changeable::Changeable::<T>::get$")
-    dg = pathx.desc(thir.peel(thir.root(gt)))
+    with pathx.reading_through(thir.root(gt)):
+        dg = pathx.desc(pathx.value_of(thir.root(gt)))
     ctx.require(dg.startswith("Clone::clone(") and "RwLock::read(self.0)" in dg, rule, "changeable-get-reads", "Changeable::get returns a clone of the stored value", gt.loc(gt.line), detail=dg)
     nw = _f(r"^watchexec::changeable::Changeable::<T>::new$")
     ctx.require(pathx.desc(thir.peel(thir.root(nw))) == "Changeable{0: Arc::new(RwLock::new(value))}", rule, "changeable-new", "Changeable::new wraps the given value", nw.loc(nw.line))
@@ -47,7 +49,8 @@ def changeable_primitives(ctx, rule):
                 fnw.loc(fnw.line), detail="%s / %s / %s" % (fty, ccl, fcl),
                 fail="cloning a Changeable(Fn) no longer shares the cell (%s / %s): a handler replaced after the clone was taken is never seen by the holder of the clone" % (ccl, fcl))
     cl = _f(r"^watchexec::changeable::ChangeableFn::<T, U>::call$")
-    dcl = pathx.desc(thir.peel(thir.root(cl)))
+    with pathx.reading_through(thir.root(cl)):
+        dcl = pathx.desc(pathx.value_of(thir.root(cl)))
     ctx.require(dcl == "Fn::call(Changeable::get(self.0), (data))", rule, "changeablefn-call-reads", "ChangeableFn::call reads the current fn at every call and passes its argument on", cl.loc(cl.line), detail=dcl)
 
 
